@@ -322,6 +322,19 @@ func TestC13HostBinds(t *testing.T) {
 		}
 		host, _ := vnet.NewNet(&vnet.NetConfig{StaticIPs: own})
 		prober, _ := vnet.NewNet(&vnet.NetConfig{StaticIPs: []string{"10.0.0.200"}})
+		// A third of the hosts are used before they are attached to the router (an application
+		// that opens a loopback or wildcard socket first): whatever the host learned about its
+		// addresses then must not outlive the attachment.
+		if rapid.IntRange(0, 2).Draw(t, "usedBeforeAttach") == 0 {
+			c.Label("host/used-before-attach")
+			for _, a := range []string{"127.0.0.1:0", "0.0.0.0:0", own[0] + ":4000"} {
+				if cn, err := host.ListenPacket("udp", a); err == nil {
+					_ = cn.Close()
+				} else if a != own[0]+":4000" {
+					t.Fatalf("C13: ListenPacket(%s) on a host that is not attached yet failed: %v", a, err)
+				}
+			}
+		}
 		if err = router.AddNet(host); err != nil {
 			t.Fatal(err)
 		}
@@ -374,7 +387,7 @@ func TestC13HostBinds(t *testing.T) {
 		// the sentinel: a socket that is always open, used as a marker target
 		sentinel, err := host.ListenUDP("udp", &net.UDPAddr{IP: net.ParseIP(own[0]), Port: 4999})
 		if err != nil {
-			t.Fatal(err)
+			t.Fatalf("C13: ListenUDP on %s:4999 failed (%v) although the IP belongs to the host and no socket is open on it yet", own[0], err)
 		}
 		defer sentinel.Close() //nolint:errcheck
 		defer func() {
